@@ -362,6 +362,12 @@ pub fn run(args: &Args, rep: &mut Report) {
         if unwinding {
             rep.count("cases_registered_while_the_caller_unwinds");
         }
+        // one case in twelve (every case with --default-pool) is built without a pool of its own
+        let no_pool = args.flag("default-pool") || (label.starts_with("gen:") && Rng::new(seed ^ 0x9001, case_no).chance(8));
+        crate::build::NO_POOL.store(no_pool, std::sync::atomic::Ordering::SeqCst);
+        if no_pool {
+            rep.count("cases_built_on_the_crates_default_pool");
+        }
         drv.begin_case();
         let res = eval_case(&ops, Some(&mut drv), &pool);
         let kf1 = Op::has_tl_in_batch(&ops, false);
@@ -430,6 +436,7 @@ pub fn run(args: &Args, rep: &mut Report) {
         }
     }
     crate::build::BUILD_UNWINDING.store(false, std::sync::atomic::Ordering::SeqCst);
+    crate::build::NO_POOL.store(false, std::sync::atomic::Ordering::SeqCst);
     rep.add("driver_requests", drv.requests);
 }
 
